@@ -2,12 +2,12 @@
 
 The body is the same as KernFeatureWriter.getVariableKerningPairs except that the designspace and the glyph set come from the
 context and that the `assert default_source is not None` is missing: without a default source the copy fails with an
-AttributeError on `None.location` (characterised in `raises`).  The contract is built from the clauses of c10's `#light`."""
+AttributeError on `None.location` (excluded by `requires`).  The contract is built from the clauses of c10's `#light`."""
 from pyvc.api import CLASSES, CONTRACTS, Dict, Ref, Runtime, Set, STR, TupleOf, cls, contract
 
 from . import c05, c10  # noqa: F401
 
-_PROPS = []  # (set to ["C10"] once proved)
+_PROPS = ["C10"]
 
 _BASE = CONTRACTS[c10._VKP + "#light"]
 _W2 = "ufo2ft.featureWriters.kernFeatureWriter2"
@@ -21,12 +21,10 @@ contract(
     params={"context": Ref("VKCtx"), "options": Ref("VKOpts"), "side1Classes": Dict(STR, TupleOf(STR)), "side2Classes": Dict(STR, TupleOf(STR))},
     returns=_BASE.returns,
     models={"fontTools.ufoLib.kerning.lookupKerningValue": c10._lookup_model, "ufo2ft.featureWriters.kernFeatureWriter.KerningPair": c10._vkp_new},
-    requires=[_G(r) for r in _BASE.requires],
-    raises={
-        "AssertionError": "any(k in side2Classes for k in set(side1Classes))",
-        # (no `assert default_source is not None` in this copy: `None.location`)
-        "AttributeError": "not any(k in side2Classes for k in set(side1Classes)) and context.font.default is None",
-    },
+    # the designspace has a default source: this copy lacks the other writer's `assert default_source is not None` and would
+    # fail on `None.location` (AttributeError) otherwise; compile_variable_features only runs on designspaces with a default
+    requires=[_G(r) for r in _BASE.requires] + ["context.font.default is not None"],
+    raises={"AssertionError": "any(k in side2Classes for k in set(side1Classes))"},
     modifies=list(_BASE.modifies),
     ensures={k: _G(v) for k, v in _BASE.ensures.items()},
     canaries=dict(_BASE.canaries),
